@@ -222,12 +222,36 @@ func genC15(m *M, budget int) {
 		// ---- element encoders: fresh results, independent of the element and of each other.
 		// Every encoder is called twice (two results of one function must not share memory), the caller
 		// then writes all over the results and each encoder is called again: same bytes as before.
-		for _, ident := range []bool{false, true} {
+		eKinds := []string{"Multiply", "Decode", "DecodeUncompressed", "Add", "Double", "Negate", "Subtract", "HashToGroup", "Copy", "Set", "Base"}
+		for _, kind := range []string{eKinds[m.rng.Intn(len(eKinds))], eKinds[m.rng.Intn(len(eKinds))], "Identity"} {
 			e := secp256k1.Base().Multiply(secp256k1.NewScalar().SetUInt64(uint64(2 + m.rng.Intn(1000))))
-			if ident {
+			o := secp256k1.Base().Double()
+			switch kind {
+			case "Decode":
+				_ = e.Decode(o.Encode())
+			case "DecodeUncompressed":
+				_ = e.DecodeUncompressed(o.EncodeUncompressed())
+			case "Add":
+				e.Add(o)
+			case "Double":
+				e.Double()
+			case "Negate":
+				_ = e.Decode(o.Encode())
+				e.Negate()
+			case "Subtract":
+				e.Subtract(o)
+			case "HashToGroup":
+				e = secp256k1.HashToGroup(m.randBytes(4), []byte("verif-c15"))
+			case "Copy":
+				e = e.Copy()
+			case "Set":
+				e.Set(o)
+			case "Base":
+				e.Base()
+			case "Identity":
 				e.Identity()
-				m.class("element:identity")
 			}
+			m.class("element_made_by:" + kind)
 			type encFn struct {
 				name string
 				f    func() []byte
@@ -265,12 +289,41 @@ func genC15(m *M, budget int) {
 		m.probe(h, "Order after writing into an earlier result", ordRef, secp256k1.Order())
 
 		// ---- scalar encoders (zero and non-zero values)
-		for _, zero := range []bool{false, true} {
+		// the scalar is the direct result of every kind of operation in turn (a result may carry state of the operation
+		// that produced it: a cached encoding, a shared scratch value)
+		sKinds := []string{"Multiply", "Pow", "Invert", "Add", "Subtract", "Square", "Decode", "HashToScalar", "Copy", "CSelect", "MinusOne", "SetUInt64"}
+		for _, kind := range []string{sKinds[m.rng.Intn(len(sKinds))], sKinds[m.rng.Intn(len(sKinds))], "Pow", "Zero"} {
 			s := secp256k1.NewScalar().SetUInt64(m.rng.Uint64())
-			s.Multiply(s)
-			if zero {
+			t := secp256k1.NewScalar().SetUInt64(uint64(2 + m.rng.Intn(50)))
+			switch kind {
+			case "Multiply":
+				s.Multiply(s)
+			case "Pow":
+				s.SetUInt64(uint64(2 + m.rng.Intn(9)))
+				s.Pow(t)
+			case "Invert":
+				s.Invert()
+			case "Add":
+				s.Add(t)
+			case "Subtract":
+				s.Subtract(t)
+			case "Square":
+				s.Square()
+			case "Decode":
+				_ = s.Decode(be32(m.scalarOf(m.anyScalarClass())))
+			case "HashToScalar":
+				s = secp256k1.HashToScalar(m.randBytes(5), []byte("verif-c15"))
+			case "Copy":
+				s.Pow(t)
+				s = s.Copy()
+			case "CSelect":
+				_ = s.CSelect(1, t, secp256k1.NewScalar().SetUInt64(7).Pow(t))
+			case "MinusOne":
+				s.MinusOne()
+			case "Zero":
 				s.Zero()
 			}
+			m.class("scalar_made_by:" + kind)
 			sref := s.Encode()
 			se, se2 := s.Encode(), s.Encode()
 			m.memCall(h, "Scalar.Encode", nil, [][]byte{se})
